@@ -9,6 +9,9 @@ CHECKS = {
  "C14": {"level": "proof", "technique": TECH,
          "text": "ProcessingPipeline.__add__/__radd__ proved to be component-wise concatenation with right-biased vars and ownership hand-over; lemmas: associativity, identity, later-vars-win; resolver.resolve proved to fold + in (priority, name) order for every argument order (0..3 pipelines unrolled, priorities symbolic); Backend.init_processing_pipeline order and Backend.convert stage trace proved with abstract callees",
          "note": "assumed: sorted() stable/<-only; __post_init__/_clear_pipeline summaries; list length of resolve unrolled to <= 3 (stated bound); bounded stand-in (all permutations/bracketings of <= 3/4 real pipelines, one backend stage trace) reported separately"},
+ "C16": {"level": "proof", "technique": TECH,
+         "text": "capability provenance proved for every transformation / post-processing / finalizer type of the registries: the opt-in fields of constructed objects are the caller's arguments (object identity), never document values, through _instantiate_transformation, item from_dict, pipeline from_dict/from_yaml and the nested loaders; fetch and exec sites proved dominated by their gates (allow flag or documented env var; real path equal to or below realpath(base)+os.sep); effect-site INVENTORY over sigma/processing",
+         "note": "assumed: os.path.realpath/dirname, os.environ, yaml.safe_load, Jinja2 are external; constructors abstract; one element per list (loops treat elements alike); document keys other than the opt-in keys represented by one generic key; bounded stand-in (injected real documents under an audit hook) reported separately"},
 }
 NOT_APPLICABLE = {
  "C20": "quantifies over interpreter processes, PYTHONHASHSEED values and draws of the random module for the whole load+convert output: no contract on a single call can express 'another process'; deciding it needs repeated subprocess execution, a different technique family (DESIGN.md section 11)",
